@@ -17,6 +17,10 @@
 //   listlimitms / createlimitms: rate limits of the cloud's list / create calls (calls in between fail)
 //   reportbroken k, reportbrokenms: the first k VMs report "broken" in their probe answers from that
 //   age on (event "broken" when such an answer is first given); onetype: one instance type for all
+//   quotafirst k: the cloud answers the first k Create calls with a cloud.QuotaError and has capacity
+//   afterwards; the pool's one-minute hold-off is virtual time (ended by the driver through the added
+//   accessor worker.(*Pool).VEndQuotaHoldOff); one container per instance type, so that a type whose
+//   first Create failed has no other instance to fall back on
 //   stalelist: the queue is empty at first; a list call of the pool is caught (snapshot: no instances)
 //   and held; only then the containers are queued; when the a container has a (slowly detaching,
 //   still Locked) process on an instance - created after the snapshot - the stale answer is
@@ -93,11 +97,13 @@ type vE2EScenario struct {
 	ReportBroken   int     `json:"reportbroken"`  // the first k VMs start reporting "broken" reportbrokenms after creation
 	ReportBrokenMs int     `json:"reportbrokenms"`
 	OneType        bool    `json:"onetype"`    // every container fits every instance
+	QuotaFirst     int     `json:"quotafirst"` // the first k Create calls of the cloud fail with a quota error
 	StaleList      bool    `json:"stalelist"`  // one answer of the cloud's list call is returned late (see vListGate)
 	BreakFirst     int     `json:"breakfirst"` // the first k VMs stop answering as soon as their container is Running
 }
 
 type vRec struct {
+	nUpd   int  // queue refreshes so far (a clock made of events)
 	dirtyU bool // an api event was logged since the last "updatomic"
 	dirtyE bool // an api or updatomic event was logged since the last "entries"
 	mu     sync.Mutex
@@ -207,6 +213,7 @@ func (w *vQueueWrap) Update() error {
 	w.r.mu.Lock()
 	defer w.r.mu.Unlock()
 	err := w.q.Update()
+	w.r.nUpd++
 	ents, _ := w.q.Entries()
 	for uuid, ent := range ents {
 		w.r.apiLocked(vE2ECtr(uuid), string(ent.Container.State), ent.Container.Priority)
@@ -262,7 +269,19 @@ func (p *vPoolWrap) StartContainer(it arvados.InstanceType, ctr arvados.Containe
 type vPersistentSet struct {
 	cloud.InstanceSet
 	g *vListGate
+	q *vQuotaFaults
 }
+
+// vQuotaFaults: the first n Create calls fail with a quota error
+type vQuotaFaults struct {
+	mu   sync.Mutex
+	left int
+}
+
+type vQuotaError struct{}
+
+func (vQuotaError) Error() string      { return "verif: instance limit exceeded" }
+func (vQuotaError) IsQuotaError() bool { return true }
 
 func (vPersistentSet) Stop() {}
 
@@ -281,6 +300,17 @@ type vListGate struct {
 // stub's Create answers before its SSH service listens, so that an instance can only be reached after
 // a later list call - which this scenario withholds).
 func (p vPersistentSet) Create(it arvados.InstanceType, image cloud.ImageID, tags cloud.InstanceTags, cmd cloud.InitCommand, key ssh.PublicKey) (cloud.Instance, error) {
+	if p.q != nil {
+		p.q.mu.Lock()
+		fail := p.q.left > 0
+		if fail {
+			p.q.left--
+		}
+		p.q.mu.Unlock()
+		if fail {
+			return nil, vQuotaError{}
+		}
+	}
 	inst, err := p.InstanceSet.Create(it, image, tags, cmd, key)
 	if err != nil || p.g == nil {
 		return inst, err
@@ -336,6 +366,7 @@ type vE2ERun struct {
 	release   chan struct{} // closed to let blocked ExecuteContainer calls return (kf scenario)
 	nVM       int
 	gate      *vListGate
+	quota     *vQuotaFaults
 	reported  map[int]bool // VMs that have answered a probe with "broken"
 	deaf      *test.StubVM // kf scenario: the VM that stopped answering before the restart
 	restarted bool
@@ -605,11 +636,14 @@ func vE2EOne(t *testing.T, scn *vE2EScenario, tw *vTraceWriter, hostpriv ssh.Sig
 		t.Fatal(err)
 	}
 	e.sis = sis
+	if scn.QuotaFirst > 0 {
+		e.quota = &vQuotaFaults{left: scn.QuotaFirst}
+	}
 	if scn.StaleList {
 		e.gate = &vListGate{caught: make(chan struct{}), release: make(chan struct{}), open: make(chan struct{})}
 	}
 	Drivers["verif"] = cloud.DriverFunc(func(config json.RawMessage, id cloud.InstanceSetID, tags cloud.SharedResourceTags, l logrus.FieldLogger) (cloud.InstanceSet, error) {
-		return vPersistentSet{sis, e.gate}, nil
+		return vPersistentSet{sis, e.gate, e.quota}, nil
 	})
 	e.rec.log(map[string]interface{}{"ev": "reset", "scn": scn.ID, "nc": scn.N, "nw": 0, "init": init, "mode": "sound"})
 
@@ -835,6 +869,12 @@ func vE2EOne(t *testing.T, scn *vE2EScenario, tw *vTraceWriter, hostpriv ssh.Sig
 	var notFinal []int
 	var insts int
 	for {
+		if scn.QuotaFirst > 0 {
+			// virtual time: the minute of hold-off after a quota error is over
+			if wp, ok := e.disp.pool.(*vPoolWrap).pool.(*worker.Pool); ok {
+				wp.VEndQuotaHoldOff()
+			}
+		}
 		// (a hold restored from the instance tags by a new dispatcher may show up late)
 		for _, iv := range e.disp.pool.Instances() {
 			if iv.IdleBehavior != worker.IdleBehaviorRun && opset[iv.Instance] {
